@@ -170,13 +170,13 @@ theorem varNames_relocate (code : SCode) (r : NCode) (h : relocate code = some r
 /-- **Statement sequences, the three passes together.** The function's symbolic code is
 `pre ++ code(ss) ++ post`; no label of `code(ss)` is defined again in `post`; `relocate` gives
 `r`; the VM runs `renameVars r`; every slot of the function lies inside the frame. Tracked
-identifiers `T` (all identifiers of `ss`) have no trailing digit. Then from instruction index
+identifiers `T`: all identifiers of `ss`. Then from instruction index
 `nI pre` the VM simulates the specification's execution of `ss` (`SimS`), re-establishing the
 relation `StRel` between specification scopes, compiler scopes and VM memory. -/
 theorem compiled_stmts_correct (cfg : Cfg) (code : Code) (lim : Limits) (mod : String) (T : List String)
     (fuel : Nat) (ss : List Stmt) (env : CEnv) (spec : St) (s : VMState) (f : Frame) (rest : List Frame)
     (pre post : SCode) (r : NCode) (stk : List SVal) (mem : List (Int × Val))
-    (hs : Frag.okSs ss = true) (hT : ∀ x ∈ Frag.identsSs ss, x ∈ T) (hdig : ∀ x ∈ T, NoTrailingDigit x)
+    (hs : Frag.okSs ss = true) (hT : ∀ x ∈ Frag.identsSs ss, x ∈ T)
     (hws : Frag.wsSs mod ss env = true)
     (hrel : relocate (pre ++ (cSs mod ss env).1 ++ post) = some r)
     (hpost : ∀ l ∈ definedLabels (cSs mod ss env).1, l ∉ definedLabels post)
@@ -188,7 +188,7 @@ theorem compiled_stmts_correct (cfg : Cfg) (code : Code) (lim : Limits) (mod : S
       (StRel mod T (· ∈ varNames r) (slotFn r) lim s.mp (cSs mod ss env).2.scopes (cSs mod ss env).2.vm)
       spec (evalStmts cfg fuel ss spec) := by
   have hg : Good T (· ∈ varNames r) (slotFn r) lim s.mp :=
-    ⟨hdig, fun a b ha hb e => (slotFn_inj r a b ha hb).mp e, hframe⟩
+    ⟨fun a b ha hb e => (slotFn_inj r a b ha hb).mp e, hframe⟩
   have hall := exec_stmt_all (cfg := cfg) (code := code) (lim := lim) (mod := mod) (T := T)
     (N := (· ∈ varNames r)) (σ := slotFn r) (lab := labelIndex (pre ++ (cSs mod ss env).1 ++ post))
     (s := s) (f := f) (rest := rest) (c := renameVars r) hcalls hfn hg fuel
